@@ -37,6 +37,7 @@ def norm(cfg):
         if c['between'] and c['t'] not in out['splits']:
             c['between'] = False
     out['serial'] = is_serial(out)
+    out['trace'] = bool(cfg.get('trace', False))
     return out
 
 
@@ -447,4 +448,5 @@ def quick_family(seed, scale=1):
             out.append(c2)
     for i, c in enumerate(out):
         c['cid'] = i + 1
+        c['trace'] = (i % 7 == 3)      # every seventh configuration also exports the event trace file
     return out
